@@ -24,7 +24,7 @@ void harness(void)
     struct static_vector v;
     c14_sv_any(&v, m, vals);
     ELEM *storage = v._data;
-    ELEM old_k = {0, 0};
+    ELEM old_k; ELEM_SET(&old_k, ELEM_RAW, 0);
     if (k < cap) old_k = v._data[k];
     const ELEM *e = 0;
     size_t want = 0;
@@ -44,9 +44,9 @@ void harness(void)
     }
     if (e) {
         __CPROVER_assert(e == storage + want, "element reference points at the requested slot inside the storage");
-        __CPROVER_assert(ELEM_value(e) == storage[want].v, "the referenced element is LIVE (readable)");
+        __CPROVER_assert(ELEM_value(e) == ELEM_V(&storage[want]), "the referenced element is LIVE (readable)");
     }
     __CPROVER_assert(v._data == storage && v.m_size == m, "observers leave the container unchanged");
-    if (k < cap) __CPROVER_assert(v._data[k].v == old_k.v && v._data[k].g_state == old_k.g_state, "observers leave every slot unchanged");
+    if (k < cap) __CPROVER_assert(ELEM_V(&v._data[k]) == ELEM_V(&old_k) && ELEM_ST(&v._data[k]) == ELEM_ST(&old_k), "observers leave every slot unchanged");
     CANARY("observers end reachable");
 }
